@@ -34,6 +34,28 @@ func runNativeRet(rc *RuleCtx) {
 				if cal == nil || pkgRel(cal) != "internal/native" || !isIntType(c.Type()) {
 					continue
 				}
+				// buffer-window contract: a pointer into the middle of a slice (&X[i]) handed to native code
+				// must come with the REMAINING length len(X)-i, not the whole length
+				for _, a := range c.Call.Args {
+					ia, ok := a.(*ssa.IndexAddr)
+					if !ok {
+						continue
+					}
+					if z, isC := constInt(ia.Index); isC && z == 0 {
+						continue
+					}
+					rc.Examined++
+					okLen := false
+					for _, b2 := range c.Call.Args {
+						if !isIntType(b2.Type()) {
+							continue
+						}
+						if sub, ok := b2.(*ssa.BinOp); ok && sub.Op == token.SUB && sameLoad(sub.Y, ia.Index) && isLenOf(sub.X, ia.X) {
+							okLen = true
+						}
+					}
+					rc.verdict(okLen, fn, anchorName(cal)+"-window", c.Pos(), map[bool]string{true: "length argument is len(buf)-offset of the same buffer and offset", false: "native." + cal.Name() + " receives a pointer to buf[offset] but no length argument equal to len(buf)-offset: native code would read past the end of the buffer"}[okLen], true)
+				}
 				rc.Examined++
 				// status values: the call, and loads of cells it is stored into
 				status := map[ssa.Value]bool{c: true}
@@ -124,4 +146,30 @@ func runNativeRet(rc *RuleCtx) {
 			}
 		}
 	}
+}
+
+func anchorName(f *ssa.Function) string { return f.Name() }
+
+// sameLoad: a and b are the same value or loads of the same field of the same base.
+func sameLoad(a, b ssa.Value) bool {
+	if a == b {
+		return true
+	}
+	la, ok1 := a.(*ssa.UnOp)
+	lb, ok2 := b.(*ssa.UnOp)
+	if !ok1 || !ok2 || la.Op != token.MUL || lb.Op != token.MUL {
+		return false
+	}
+	fa, ok1 := la.X.(*ssa.FieldAddr)
+	fb, ok2 := lb.X.(*ssa.FieldAddr)
+	return ok1 && ok2 && fa.X == fb.X && fa.Field == fb.Field
+}
+
+func isLenOf(v, buf ssa.Value) bool {
+	c, ok := v.(*ssa.Call)
+	if !ok {
+		return false
+	}
+	b, ok := c.Call.Value.(*ssa.Builtin)
+	return ok && b.Name() == "len" && len(c.Call.Args) == 1 && sameLoad(c.Call.Args[0], buf)
 }
